@@ -920,11 +920,17 @@ def shards(tier, seed):
         n = NCHUNK[mesh] * (1 if tier == 'quick' or mesh == 'per22' else 2)
         for i in range(n):
             out.append({'mesh': mesh, 'chunk': i, 'of': n})
+    from .. import c10_and
+    out += c10_and.shards(tier)
     return out
 
 
 def run_shard(spec, tier, seed):
     res = core.ShardResult()
+    if spec.get('kind') == 'and':
+        from .. import c10_and
+        c10_and.run(spec, tier, res)
+        return res
     LOUD.clear()
     NOTES.clear()
     NOTE_EX.clear()
@@ -948,6 +954,9 @@ def run_shard(spec, tier, seed):
 
 def replay(witness):
     'walk the history with the full oracle (native observations confirm every finding); returns the first violation'
+    if witness.get('kind') == 'and':
+        from .. import c10_and
+        return c10_and.replay(witness)
     st = initial_state(witness['mesh'])
     oc = Outcome()
     if not witness.get('ops'):
